@@ -818,6 +818,7 @@ STATEMENTS: dict[str, str] = {
 	'user_operator_repaired': 'on the model of try_operation with proposed/C03-operator-operand-indirect-subclass.diff applied (all ancestors of the operand compared) the FULL sentence user_operator_statement holds: an operand of any descendant class is typed by the left operand\'s method',
 	'shape_operators': 'BOp.arith / BOp.selects of the model are exactly the literal operator lists of Operations.arthmetical (accessible.py) and of try_operation (traits.py), read from the source by translate/gen_infer_shape.py on every run, for every operator token; the translator pins the statement sequence of try_operation and each_binary_operator (another shape = broken tie)',
 	'shape_attr_indexes': 'the attrs positions the handlers read (on_spread 0, on_indexer 0 / 1, IteratorTrait.iterates 0 — generated from the source) are the ones onSpread / onIndex use',
+	'handlers_accounted': 'every on_… handler ProceduralResolver defines (68 today; list generated from reflections.py on every run) has an arm of infer (32), is modelled beside it (on_spread, on_lambda) or is listed as outside the Lean model (34: declarations / statements — tied through the decl / for ops of stream infer-programs —, type annotations, arguments, imports, class / this / super references); a handler added, removed or renamed breaks the theorem',
 	'spread_items / sound_spread': 'on_spread (first type argument) equals the loop-variable type iterates answers for a list, a dict (keys) and Iterator<T> sources, for EVERY element type; hence the items CPython spreads conform to it (through sound_iter)',
 	'spread_tuple_counterexample': 'known finding spread-first-type-argument: for t = (1, "a") : tuple[int, str] on_spread answers int, CPython spreads a str too',
 	'list_literal_counterexample': 'known finding list-literal-class-dedup: [[None], [1]] is typed list<list<int>> (outside Core)',
